@@ -19,7 +19,7 @@ let dead = ref false
 
 let err_name = function
   | CErrOracle -> "ErrOracle" | CErrCorrupt -> "ErrCorrupt" | CErrBadFree -> "ErrBadFree"
-  | CErrUnmodelled -> "ErrUnmodelled" | COk _ -> "ok"
+  | CErrUnmodelled -> "ErrUnmodelled" | CNull -> "Null" | COk _ -> "ok"
 
 let regime_name = function Small -> "small" | Medium -> "medium" | Large -> "large" | Huge -> "huge"
 
@@ -46,7 +46,10 @@ let () =
         | COk (((h, p), us), moved) ->
           heap := h;
           (match p with
-           | None -> Hashtbl.remove slots slot; Printf.printf "P %s 0 0 0 0\n" op
+           | None ->
+             (* after a free the slot is empty; a refused request (nsize > 0) leaves the old block in place *)
+             if int_of_string nsize = 0 then Hashtbl.remove slots slot;
+             Printf.printf "P %s 0 0 0 0\n" op
            | Some (s, o) ->
              Hashtbl.replace slots slot (s, o);
              Printf.printf "P %s %s %d %d %d\n" op (hex_of_z s) (int_of_z o) (int_of_z us) (if moved then 0 else 1))
@@ -59,6 +62,10 @@ let () =
       let bs = match class_of s with Some c -> int_of_z (class_bs c) | None -> 0 in
       Printf.printf "Q size %s %s %d %d %s %s\n" v (regime_name (regime_of s)) cls bs
         (hex_of_z (large_span_count s)) (hex_of_z (huge_pages !psh s))
+    | [ "Q"; "huge"; v ] ->
+      (match huge_request !psh (z_of_hex v) with
+       | None -> Printf.printf "Q huge %s refused\n" v
+       | Some n -> Printf.printf "Q huge %s pages %s\n" v (hex_of_z n))
     | [ "Q"; "consts" ] ->
       Printf.printf "Q consts SMALL_SIZE_LIMIT=%d MEDIUM_SIZE_LIMIT=%d LARGE_SIZE_LIMIT=%d SIZE_CLASS_COUNT=%d medium_size_limit=%d\n"
         (int_of_z sMALL_SIZE_LIMIT) (int_of_z mEDIUM_SIZE_LIMIT) (int_of_z lARGE_SIZE_LIMIT) (int_of_z sIZE_CLASS_COUNT) (int_of_z medium_limit)
